@@ -74,6 +74,10 @@ func (context *CHFContext) NewCHFUe(supi string) (*ChfUe, error) {
 		// the supi becomes part of the charging data resource URI and of the CDR file name
 		return nil, fmt.Errorf(" add Ue context fail: supi contains a path separator ")
 	}
+	if len(supi)+len(".cdr") > 255 || strings.ContainsRune(supi, 0) {
+		// the CDR file of the subscriber is named after the supi: a file name holds 255 octets and no NUL
+		return nil, fmt.Errorf(" add Ue context fail: supi cannot name a CDR file ")
+	}
 	if ue, ok := context.ChfUeFindBySupi(supi); ok {
 		return ue, nil
 	}
